@@ -21,7 +21,7 @@ Mirrors, function by function,
   `pkg/ratelimiter/store/local/upstreamcondition.go` (`syncLocalFlowControls`),
   `pkg/ratelimiter/store/flowcontrol/global_flowcontrol.go` (`NewGlobalFlowControl`).
 
-Conventions: pointers are `Option`, every Go dereference is an explicit `deref` (a `none` is a Go panic), a returned
+Conventions: Go's `len(x) == 0` / `len(x) > 0` are written `x = []` / `x ≠ []`; pointers are `Option`, every Go dereference is an explicit `deref` (a `none` is a Go panic), a returned
 Go `error` is `Err.err`; `int32`→`uint32` conversions are `toU32`. External parsers are fields of `Env`
 (parameters of every theorem); strings are byte lists.
 -/
@@ -214,12 +214,12 @@ def popAny (env : Env) : List Str → Str
 /-- one iteration of the loop of `ValidateServers`: the errors and the scheme inserted into `schemes` -/
 def validateServer (env : Env) (fldPath : String) (i : Nat) (s : Server) : Errs × Option Str :=
   let scheme := getURLScheme s.endpoint
-  if scheme.length == 0 then
+  if scheme = [] then
     ([invalid (index (child fldPath "servers") i)], none)
   else match env.urlParse s.endpoint with
     | none => ([invalid (child (index fldPath i) "endpoint")], none)
     | some u =>
-      if u.host.length == 0 then ([invalid (child (index fldPath i) "endpoint")], none)
+      if u.host = [] then ([invalid (child (index fldPath i) "endpoint")], none)
       else ([], some scheme)
 
 /-- the loop of `ValidateServers` -/
@@ -240,18 +240,18 @@ structure ServersResult where
 
 /-- `ValidateServers(servers, fldPath) (upstreams, scheme, errs)` -/
 def validateServers (env : Env) (servers : List Server) (fldPath : String) : ServersResult :=
-  let e0 := errIf (servers.length == 0) (required (child fldPath "servers"))
+  let e0 := errIf (servers = []) (required (child fldPath "servers"))
   let l := validateServersLoop env fldPath 0 servers []
   let e2 := errIf (l.2.length > 1) (invalid (child fldPath "servers"))
   { upstreams := servers.map (·.endpoint), scheme := popAny env l.2, errs := e0 ++ l.1 ++ e2 }
 
 /-- the `if scheme == "https"` block of `ValidateClientConfig` -/
 def validateClientConfigHTTPS (c : ClientConfig) (fldPath : String) : Errs :=
-  let hasToken := c.bearerToken.length > 0
-  let hasKey := c.keyData.length > 0
-  let hasCert := c.certData.length > 0
-  errIf (!c.insecure && c.caData.length == 0) (required (child fldPath "caData")) ++
-  errIf (c.insecure && c.caData.length > 0) (forbidden (child fldPath "caData")) ++
+  let hasToken := c.bearerToken ≠ []
+  let hasKey := c.keyData ≠ []
+  let hasCert := c.certData ≠ []
+  errIf (!c.insecure && c.caData = []) (required (child fldPath "caData")) ++
+  errIf (c.insecure && c.caData ≠ []) (forbidden (child fldPath "caData")) ++
   (if !hasToken && !hasKey && !hasCert then [required "spec.clientConfig"]
    else if hasKey || hasCert then
      errIf (!hasKey) (required (child fldPath "keyData")) ++ errIf (!hasCert) (required (child fldPath "certData"))
@@ -264,21 +264,21 @@ def validateClientConfig (env : Env) (scheme : Str) (c : ClientConfig) (fldPath 
   errIf (c.qpsDivisor < 0) (invalid (child fldPath "qpsDivisor")) ++
   errIf (c.qps > 0 && c.burst < c.qps) (invalid (child fldPath "burst")) ++
   (if scheme = sHttps then validateClientConfigHTTPS c fldPath else []) ++
-  (if c.keyData.length > 0 && c.certData.length > 0 then
+  (if c.keyData ≠ [] && c.certData ≠ [] then
      (if env.x509KeyPair c.certData c.keyData then []
       else [invalid (child fldPath "certData"), invalid (child fldPath "keyData")])
    else []) ++
-  (if c.caData.length > 0 then
+  (if c.caData ≠ [] then
      errIf (!env.parseCertsPEM c.caData) (invalid "spec.ClientConfig.CAData")
    else [])
 
 /-- `ValidateSecureServing` -/
 def validateSecureServing (env : Env) (s : SecureServing) (fldPath : String) : Errs :=
-  (if s.certData.length > 0 && s.keyData.length > 0 then
+  (if s.certData ≠ [] && s.keyData ≠ [] then
      (if env.x509KeyPair s.certData s.keyData then []
       else [invalid (child fldPath "certData"), invalid (child fldPath "keyData")])
    else []) ++
-  (if s.clientCAData.length > 0 then
+  (if s.clientCAData ≠ [] then
      errIf (!env.parseCertsPEM s.clientCAData) (invalid (child fldPath "clientCAData"))
    else [])
 
@@ -326,11 +326,10 @@ def vfcGlobalTokenBucket (s : Schema) (fldPath : String) : M Errs :=
       pure (e1 ++ [required (child fldPath "tokenBucket")])
     else do
       let tb ← deref "schema.TokenBucket" s.tokenBucket
-      if g.qps < tb.qps then
-        pure (e1 ++ [invalid (child (child fldPath "globalTokenBucket") "qps")])
-      else if g.burst < tb.burst then
-        pure (e1 ++ [invalid (child (child fldPath "globalTokenBucket") "burst")])
-      else pure e1
+      pure (e1 ++
+        (if g.qps < tb.qps then [invalid (child (child fldPath "globalTokenBucket") "qps")]
+         else if g.burst < tb.burst then [invalid (child (child fldPath "globalTokenBucket") "burst")]
+         else []))
   else pure []
 
 /-- `ValidateFlowControlConfiguration(schema, fldPath)` -/
@@ -352,10 +351,10 @@ def validateFlowControlLoop (fldPath : String) : Nat → List Schema → List St
   | i, fs :: rest, names => do
     let p := index fldPath i
     let e1 :=
-      if fs.name.length == 0 then [required (child p "name")]
+      if fs.name = [] then [required (child p "name")]
       else if names.contains fs.name then [duplicate (child p "name")]
       else []
-    let names' := if fs.name.length == 0 then names else setInsert names fs.name
+    let names' := if fs.name = [] then names else setInsert names fs.name
     let e2 := errIf (!strategyOK fs.strategy) (invalid (child p "strategy"))
     let e3 ← validateFlowControlConfiguration fs p
     let (ns, es) ← validateFlowControlLoop fldPath (i + 1) rest names'
@@ -382,7 +381,7 @@ def validateSubset (upstreams : List Str) (fldPath : String) : Nat → List Str 
 def validateDispatchPolicy (upstreams names : List Str) (p : Policy) (fldPath : String) : Errs :=
   errIf (p.strategy ≠ sRoundRobin) (invalid (child fldPath "strategy")) ++
   validateSubset upstreams fldPath 0 p.upstreamSubset ++
-  errIf (p.flowControlSchemaName.length > 0 && !names.contains p.flowControlSchemaName)
+  errIf (p.flowControlSchemaName ≠ [] && !names.contains p.flowControlSchemaName)
     (invalid (child fldPath "flowControlSchemaName")) ++
   errIf (p.nRules == 0) (required (child fldPath "rules")) ++
   errIf (!logModeOK p.logMode) (invalid (child fldPath "mode"))
@@ -400,7 +399,7 @@ def validateUpstreamClusterSpec (env : Env) (c : Cluster) (fldPath : String) : M
   let e2 := validateSecureServing env c.secureServing (child fldPath "secureServing")
   let (names, e3) ← validateFlowControl c.schemas (child fldPath "flowControl")
   let e4 := validateLoggingConfig c.loggingMode (child fldPath "logging")
-  let e5 := errIf (c.policies.length == 0) (required (child fldPath "dispatchPolicies"))
+  let e5 := errIf (c.policies = []) (required (child fldPath "dispatchPolicies"))
   let e6 := validatePolicies sr.upstreams names fldPath 0 c.policies
   pure (sr.errs ++ e1 ++ e2 ++ e3 ++ e4 ++ e5 ++ e6)
 
@@ -422,7 +421,7 @@ def validateFeatureGate (env : Env) (c : Cluster) : Errs :=
   | none => []
   | some m =>
     let featuregate := mapGet m sFeatureGateKey
-    if featuregate.length > 0 then
+    if featuregate ≠ [] then
       errIf (env.featureGateSet featuregate).isNone
         (invalid (key (child "metadata" "annotations") Gen.C16.featureGateAnnotationKey))
     else []
@@ -728,9 +727,9 @@ def buildClusterRESTConfig (env : Env) (c : Cluster) : M (Option TLSClientConfig
 def tlsConfigFor (env : Env) : Option TLSClientConfig → M Unit
   | none => pure ()
   | some t =>
-    if t.caData.length > 0 && t.insecure then
+    if t.caData ≠ [] && t.insecure then
       throw (.err "specifying a root certificates file with the insecure flag is not allowed")
-    else if t.certData.length > 0 && t.keyData.length > 0 && !env.x509KeyPair t.certData t.keyData then
+    else if t.certData ≠ [] && t.keyData ≠ [] && !env.x509KeyPair t.certData t.keyData then
       throw (.err "tls: failed to load key pair")
     else pure ()
 
@@ -760,7 +759,7 @@ def syncFeatureGate (env : Env) (annotations : Option (List (Str × Str))) : M B
   let featuregate := match annotations with
     | some m => mapGet m sFeatureGateKey
     | none => []
-  if featuregate.length == 0 then pure false
+  if featuregate = [] then pure false
   else match env.featureGateSet featuregate with
     | none => throw (.err "feature gate annotation does not parse")
     | some b => pure b
@@ -768,10 +767,10 @@ def syncFeatureGate (env : Env) (annotations : Option (List (Str × Str))) : M B
 /-- `syncSecureServingConfigLocked(newSecureServing)` (the first `DeepEqual` compares a pointer with a value and
     never holds) -/
 def syncSecureServingConfig (env : Env) (old new : SecureServing) : M SecureServing :=
-  if old.clientCAData ≠ new.clientCAData && new.clientCAData.length > 0 && !env.parseCertsPEM new.clientCAData then
+  if old.clientCAData ≠ new.clientCAData && new.clientCAData ≠ [] && !env.parseCertsPEM new.clientCAData then
     throw (.err "unable to load client CA file")
   else if (old.keyData ≠ new.keyData || old.certData ≠ new.certData) &&
-      !(new.keyData.length == 0 || new.certData.length == 0) && !env.x509KeyPair new.certData new.keyData then
+      !(new.keyData = [] || new.certData = []) && !env.x509KeyPair new.certData new.keyData then
     throw (.err "invalid serving cert keypair")
   else pure new
 
